@@ -28,32 +28,77 @@ func DefaultComparePreRelease[T1, T2 constraint.ParserInput](a T1, b T2) int {
 	} else if lb == 0 {
 		return -1
 	}
-	if la > lb {
-		return comparePreRelease(b, a)
-	}
-	return -comparePreRelease(a, b)
+	return comparePreRelease(string(a), string(b))
 }
 
-func comparePreRelease[T1, T2 constraint.ParserInput](shorter T1, longer T2) int {
-	s, l := string(shorter), string(longer)
-	longerRunes := []rune(l)
-	for i, sr := range s {
-		if lr := longerRunes[i]; sr != lr {
-			return comparePreReleaseSuffix(s[i:], l[i:])
+// comparePreRelease compares dot separated identifiers from left to right.
+// A larger set of identifiers is greater than a smaller one if all preceding identifiers are equal.
+func comparePreRelease(a, b string) int {
+	for {
+		x, restA, moreA := cutIdentifier(a)
+		y, restB, moreB := cutIdentifier(b)
+		if c := compareIdentifier(x, y); c != 0 {
+			return c
+		}
+		if !moreA || !moreB {
+			if moreA {
+				return 1
+			}
+			if moreB {
+				return -1
+			}
+			return 0
+		}
+		a, b = restA, restB
+	}
+}
+
+func cutIdentifier(s string) (identifier, rest string, more bool) {
+	for i := 0; i < len(s); i++ {
+		if s[i] == '.' {
+			return s[:i], s[i+1:], true
 		}
 	}
-	if len(s) == len(l) {
-		return 0
-	}
-	return 1
+	return s, "", false
 }
 
-func comparePreReleaseSuffix(shorter string, longer string) int {
-	if digitsOrEmpty.MatchString(shorter) && digitsOrEmpty.MatchString(longer) {
-		shorter = strings.TrimLeft(shorter, "0")
-		longer = strings.TrimLeft(longer, "0")
+// compareIdentifier compares two identifiers: numeric ones numerically and lower than alphanumeric ones,
+// alphanumeric ones in ASCII order. Alphanumeric identifiers that differ only in a trailing run of digits
+// are compared by the numeric value of these digits (i.e. a01 is equal to a1).
+func compareIdentifier(x, y string) int {
+	if x == y {
+		return 0
 	}
-	return -strings.Compare(shorter, longer)
+	xNumeric, yNumeric := digitsOrEmpty.MatchString(x), digitsOrEmpty.MatchString(y)
+	if xNumeric && yNumeric {
+		return compareDigits(x, y)
+	}
+	if xNumeric {
+		return -1
+	}
+	if yNumeric {
+		return 1
+	}
+	i := 0
+	for i < len(x) && i < len(y) && x[i] == y[i] {
+		i++
+	}
+	if digitsOrEmpty.MatchString(x[i:]) && digitsOrEmpty.MatchString(y[i:]) {
+		return compareDigits(x[i:], y[i:])
+	}
+	return strings.Compare(x, y)
+}
+
+// compareDigits compares two strings of digits by their numeric value (of any length).
+func compareDigits(x, y string) int {
+	x, y = strings.TrimLeft(x, "0"), strings.TrimLeft(y, "0")
+	if len(x) != len(y) {
+		if len(x) < len(y) {
+			return -1
+		}
+		return 1
+	}
+	return strings.Compare(x, y)
 }
 
 // CompareVersion compares passed versions.
